@@ -157,7 +157,8 @@ def _cases(tier, shapes):
     pss = [1e-4, 1.0] if tier == "quick" else [1e-4, 0.1, 1.0]
     for (r, c) in shapes:
         targets = [None, [0] * (r - 1) + [1], list(range(r))]
-        for ent in itertools.product(ENTRIES, repeat=r * c):
+        entries = ENTRIES if r * c <= 6 else [0, 1, 5]      # 3x3: 3^9 matrices
+        for ent in itertools.product(entries, repeat=r * c):
             M = np.array(ent).reshape(r, c)
             if M.sum() == 0:
                 continue
